@@ -361,6 +361,79 @@ theorem C12_no_directive_octet (d : Bytes) (h : PduHeader) (hu : PduHeader.unpac
   · rw [pduDirectiveType_of_header d h hu, if_neg (by omega), if_pos hl]
   · rw [fromRaw_of_header d h hu, if_neg (by omega), if_pos hl]
 
+/-! ## truncated PDUs -/
+
+private theorem truncated_directive (d : Bytes) (fd : FileDirective) (q : Bytes)
+    (hp : prelude d = .ok (fd, q)) (ht : fd.header.pduType = 0) (kind : Kind) (f : Bytes → Py AnyPdu)
+    (hdk : decoderOf kind = some f)
+    (hdisp : ∀ d', (directiveOf fd.code >>= fun dir => dispatch dir d') = decodeAs kind d')
+    (k : Nat) (hk : k < d.length) (hf : f (d.take k) = .error .value) :
+    fromRaw (d.take k) = .error .value := by
+  obtain ⟨hu, hi, _⟩ := (prelude_ok_iff d fd q).mp hp
+  rw [fromRaw_take_directive d fd.header hu ht fd.code hi k (by omega)]
+  split
+  · rfl
+  · rw [hdisp]; exact decodeAs_err hdk hf
+
+/-- **every strict prefix of a packed PDU of any kind is refused by the factory with `ValueError`**
+    (too short), in every header configuration — never decoded as something else -/
+theorem C12_truncated (p : AnyPdu) (wf : WFPdu p) (k : Nat) (hk : k < (Spec.octets p).length) :
+    fromRaw ((Spec.octets p).take k) = .error .value := by
+  cases p with
+  | fileData x =>
+    obtain ⟨_, h1, _, _⟩ := C12_dispatch_filedata x wf.1 wf.2 []
+    rw [List.append_nil] at h1
+    have hlen : (C07.Spec.octets x).length = x.packetLen := (C07.C07_len x wf.1).1
+    have ht := C07.C07_truncated x wf.1 k (by rw [← hlen]; exact hk)
+    show fromRaw ((C07.Spec.octets x).take k) = _
+    cases hd : C07.Spec.octets x with
+    | nil => rw [hd] at h1; cases h1
+    | cons x0 r =>
+      rw [hd, pduType_cons] at h1
+      have e1 : x0.toNat / 16 % 2 = 1 := Except.ok.inj h1
+      rw [hd] at ht
+      match k with
+      | 0 => rfl
+      | k + 1 =>
+        rw [List.take_succ_cons] at ht ⊢
+        rw [fromRaw_cons, if_pos (by omega)]
+        exact decodeAs_err rfl (by rw [ht]; rfl)
+  | ack x =>
+    have hr := C06Fixed.C06_ack_roundtrip x wf []
+    rw [List.append_nil] at hr
+    obtain ⟨hp, _⟩ := Ack.unpack_inv _ x hr
+    obtain ⟨_, hty, _, hcode, _⟩ := wf.2.2.2.2.2
+    refine truncated_directive _ _ _ hp hty .ack _ rfl ?_ k hk ?_
+    · intro d'; rw [hcode]; exact (dispatch_table d').2.2.1
+    · show AnyPdu.ack <$> Ack.Ack.unpack _ = _
+      rw [C06Fixed.C06_ack_truncated x wf k hk]; rfl
+  | prompt x =>
+    have hr := C06Fixed.C06_prompt_roundtrip x wf []
+    rw [List.append_nil] at hr
+    obtain ⟨hp, _⟩ := Prompt.unpack_inv _ x hr
+    obtain ⟨_, hty, _, hcode, _⟩ := wf.2
+    refine truncated_directive _ _ _ hp hty .prompt _ rfl ?_ k hk ?_
+    · intro d'; rw [hcode]; exact (dispatch_table d').2.2.2.2.2.1
+    · show AnyPdu.prompt <$> Prompt.Prompt.unpack _ = _
+      rw [C06Fixed.C06_prompt_truncated x wf k hk]; rfl
+  | keepAlive x =>
+    have hr := C06Fixed.C06_keepalive_roundtrip x wf []
+    rw [List.append_nil] at hr
+    obtain ⟨hp, _⟩ := KeepAlive.unpack_inv _ x hr
+    obtain ⟨_, hty, _, hcode, _⟩ := wf.2.2
+    refine truncated_directive _ _ _ hp hty .keepAlive _ rfl ?_ k hk ?_
+    · intro d'; rw [hcode]; exact (dispatch_table d').2.2.2.2.2.2.1
+    · show AnyPdu.keepAlive <$> KeepAlive.KeepAlive.unpack _ = _
+      rw [C06Fixed.C06_keepalive_truncated x wf k hk]; rfl
+  | nak x =>
+    have hr := C06Fixed.C06_nak_roundtrip x wf
+    obtain ⟨hp, _⟩ := Nak.unpack_inv _ x hr
+    obtain ⟨_, hty, _, hcode, _⟩ := wf.2.2.2
+    refine truncated_directive _ _ _ hp hty .nak _ rfl ?_ k hk ?_
+    · intro d'; rw [hcode]; exact (dispatch_table d').2.2.2.2.1
+    · show AnyPdu.nak <$> Nak.Nak.unpack _ = _
+      rw [C06Fixed.C06_nak_truncated x wf k hk]; rfl
+
 /-! ## soundness for any input -/
 
 /-- **whatever `from_raw` returns, for whatever octet string, is an object of the kind the octets
